@@ -271,6 +271,7 @@ def run(ctx, R):
         rec(ph["body"], False)
     R.floor("occurs-check binds/unifications in instruction handlers", n_oc, 6)
     R.floor("instruction handlers using the raw binder", raw_binds(F, R), 3)
+    R.floor("Str arms of tag dispatches", blind_structure_reads(F, R), 70)
 
 
 def _is_assign_target(x, stmt):
@@ -324,4 +325,49 @@ def raw_binds(F, R, prefix="C10"):
              ("listed: " + RAW_BIND_OK[nm]) if nm in RAW_BIND_OK else
              "%s binds with MachineState::bind at line(s) %s: the raw binder performs no occurs check, so with occurs_check = true/error head unification through this "
              "instruction builds a cyclic term silently; bind through self.occurs_check.bind" % (nm, lines), F.where(p))
+    return n
+
+
+BLIND_STR_OK = {
+    "Machine::fast_call": "the arity comes from the caller, which has already read the goal's functor (goal_arity)",
+}
+
+
+def blind_structure_reads(F, R, prefix="C10"):
+    """A Str cell points at a functor cell followed by that functor's arguments. Code that, in the Str arm of a tag
+    dispatch, reads heap[s + k] without ever reading the functor cell (name / arity) treats an arbitrary compound as the
+    shape it expects — e.g. as a '.'/2 list cell: get_partial_string once unified "xy" in a clause head with g(x,[y])."""
+    TAGP = "types::HeapCellValueTag::"
+    n = 0
+    for p, it in sorted(F.items.items()):
+        if it["kind"] not in ("Fn", "AssocFn") or not it["file"].startswith("src/") or "::tests::" in p or it["file"].endswith("mock_wam.rs"):
+            continue
+        try:
+            h = F.hir(p)
+        except AnchorLost:
+            continue
+        for m in matches_in(h["body"], src=None):
+            if m["scrut"].get("ty") != "types::HeapCellValueTag":
+                continue
+            for arm in m["arms"]:
+                if not any((res_name(l) or "") == TAGP + "Str" for l in pat_leaves(arm["pat"])):
+                    continue
+                n += 1
+                plus, plain = set(), set()
+                for x in walk(arm["body"]):
+                    if x["k"] == "Index" and any(y["k"] == "Field" and y["name"] == "heap" for y in walk(x["base"])):
+                        i = x["idx"]
+                        if i["k"] == "Binary" and i["op"] == "Add" and i["a"]["k"] == "Path":
+                            plus.add(res_name(i["a"]))
+                        elif i["k"] == "Path":
+                            plain.add(res_name(i))
+                blind = sorted(v for v in plus if v not in plain)
+                reads_functor = any(x["k"] in ("Call", "MethodCall") and re.search(r"get_name_and_arity|get_arity|get_name$|name_and_arity_from_heap",
+                                    (x.get("resolved") or x.get("callee") or x.get("name") or "")) for x in walk(arm["body"]))
+                if blind and not reads_functor:
+                    sp = short(p)
+                    R.ob("%s:structure-arguments-read-after-functor:%s" % (prefix, sp), sp in BLIND_STR_OK,
+                         ("listed: " + BLIND_STR_OK[sp]) if sp in BLIND_STR_OK else
+                         "%s reads heap[%s + k] in the Str arm of a tag dispatch (line %s) without reading the functor cell heap[%s]: any compound term is accepted as the "
+                         "structure this code expects (q(\"xy\"). ?- q(g(A,B)). succeeded with A = x, B = [y])" % (sp, blind[0], arm["ln"], blind[0]), F.where(p))
     return n
